@@ -247,15 +247,22 @@ func c18Op(t []string) string {
 			w, err = cl.PushBlobChunkedResume(ctx, "foo", "/v2/foo/blobs/uploads/abc", -1, 4)
 		}
 		if err == nil {
+			// keep using the writer whatever it answers, as a caller that logs and carries on would
 			_ = w.ChunkSize()
 			_ = w.ID()
-			for i := 0; i < 3 && err == nil; i++ {
-				_, err = w.Write([]byte("hello world"))
+			for i := 0; i < 3; i++ {
+				if _, werr := w.Write([]byte("hello world")); werr != nil {
+					err = werr
+				}
+				_ = w.Size()
+				_ = w.ID()
 			}
-			if err == nil {
-				_, err = w.Commit(dg)
+			if _, cerr := w.Commit(dg); cerr != nil {
+				err = cerr
 			}
+			_ = w.ID()
 			w.Close()
+			w.Cancel()
 		}
 	case "MountBlob":
 		_, err = cl.MountBlob(ctx, "bar", "foo", dg)
